@@ -18,6 +18,10 @@ use serde_json::{json, Value};
 use std::borrow::Cow;
 use std::collections::{BTreeMap, HashMap, HashSet};
 
+/// second wave: config-row / file errors of `open`, SQLite URI parameters, generated keys, shared handles, damaged profile keys
+#[path = "c08x.rs"]
+mod x;
+
 type Feat = BTreeMap<String, u64>;
 
 fn bump(f: &mut Feat, k: &str) { *f.entry(k.to_string()).or_insert(0) += 1; }
@@ -774,7 +778,7 @@ pub fn exec(case: &Value, tag: &str) -> Value {
         "c08:uri-parse" => exec_uri_parse(case),
         "c08:method" => exec_method(case),
         "c08:life" => exec_life(case, tag),
-        k => json!({"out": {"err": format!("unknown kind {}", k)}, "oracle": [], "feat": {}}),
+        k => x::exec(case, tag).unwrap_or_else(|| json!({"out": {"err": format!("unknown kind {}", k)}, "oracle": [], "feat": {}})),
     }
 }
 
@@ -1288,5 +1292,8 @@ pub fn gen(r: &mut Rng, thorough: bool, count: Option<usize>) -> Vec<Value> {
         let allow_mod = if thorough { (i / 16) % 5 == 0 } else { i < 16 };
         out.push(gen_life(&mut rr, i, allow_mod, format!("C08-l-{}", i)));
     }
+    // second wave (an explicit --count scales it like the rest)
+    let scale = match count { Some(c) => (c as f64) / (if thorough { 9000.0 } else { 530.0 }), None => 1.0 };
+    out.extend(x::gen(r, thorough, scale));
     out
 }
